@@ -705,7 +705,12 @@ func nodeTok(n *corev1.Node) string {
 	if n.DeletionTimestamp != nil {
 		d = 1
 	}
-	return fmt.Sprintf("%s:%s:d%d", n.Name, canonListB(n.Spec.PodCIDRs), d)
+	var ls []string
+	for k, v := range n.Labels {
+		ls = append(ls, k+"="+v)
+	}
+	sort.Strings(ls)
+	return fmt.Sprintf("%s:%s:d%d:L%s", n.Name, canonListB(n.Spec.PodCIDRs), d, strings.Join(ls, "+"))
 }
 func ccTok(c *v1.ClusterCIDR) string {
 	d := 0
@@ -723,7 +728,7 @@ func (w *sysWorld) apiTok() string {
 	for _, c := range w.ccs {
 		cs = append(cs, ccTok(c))
 	}
-	return joinOr(ns, ";", "-") + "/" + joinOr(cs, ";", "-")
+	return joinOr(ns, ";", "-") + "^" + joinOr(cs, ";", "-")
 }
 
 func (w *sysWorld) cacheTok() string {
@@ -736,7 +741,7 @@ func (w *sysWorld) cacheTok() string {
 	}
 	sort.Strings(ns)
 	sort.Strings(cs)
-	return joinOr(ns, ";", "-") + "/" + joinOr(cs, ";", "-") + fmt.Sprintf("/%d/%d", len(w.nfeed), len(w.cfeed))
+	return joinOr(ns, ";", "-") + "^" + joinOr(cs, ";", "-") + fmt.Sprintf("^%d^%d", len(w.nfeed), len(w.cfeed))
 }
 
 func (w *sysWorld) queueTok() string {
